@@ -26,7 +26,9 @@ def rebinds_object(module):
             return True
         elif isinstance(node, ast.arg) and node.arg == 'object':
             return True
-        elif isinstance(node, ast.alias) and (node.name == '*' or 'object' in [node.asname, node.name]):
+        elif isinstance(node, ast.alias) and (node.name == '*' or node.asname == 'object' or node.name.split('.')[0] == 'object'):
+            return True
+        elif isinstance(node, (ast.TypeVar, ast.TypeVarTuple, ast.ParamSpec)) and node.name == 'object':
             return True
         elif isinstance(node, (ast.Global, ast.Nonlocal)) and 'object' in node.names:
             return True
